@@ -432,7 +432,20 @@ void execute_decode(const Plan& plan) {
             break;
           }
           case kLocalTable: { Label l = a.new_label(); labels.push_back(l); embed_site(l); break; }
-          case kRipData: { if (target != 0) break; Label l = a.new_label(); labels.push_back(l); mem_site(l, (op.a[1] & 0x100) ? -int64_t(op.a[1] & 0xff) : int64_t(op.a[1] & 0xff)); break; }
+          case kRipData: {
+            if (target != 0) break;
+            if (op.a[1] & 0x200) {
+              // 32-bit mode has no RIP-relative addressing: a [rip + disp] operand becomes an absolute address (the end of the
+              // instruction + disp) through a relocation - also when an immediate follows the address field
+              int32_t disp = int32_t(op.a[1] & 0xff) * ((op.a[1] & 0x100) ? -1 : 1);
+              x86::Mem m = x86::dword_ptr(x86::rip, disp);
+              size_t at = a.offset(); Error er; size_t imm_size;
+              switch ((op.a[1] >> 10) % 4) { case 0: er = xa.mov(x86::eax, m); imm_size = 0; break; case 1: er = xa.add(m, Imm(5)); imm_size = 1; break; case 2: er = xa.mov(m, Imm(0x11223344)); imm_size = 4; break; default: er = xa.imul(x86::ecx, m, Imm(1000)); imm_size = 4; break; }
+              if (er == Error::kOk) { sites.push_back(Site{8, a.current_section()->section_id(), at, a.offset(), uint64_t(uint16_t(int16_t(disp))) | (uint64_t(imm_size) << 48), Label(), imm_size != 0}); sim::count("c04.probe.decode_rip_operand_on_x86_32"); }
+              break;
+            }
+            Label l = a.new_label(); labels.push_back(l); mem_site(l, (op.a[1] & 0x100) ? -int64_t(op.a[1] & 0xff) : int64_t(op.a[1] & 0xff)); break;
+          }
           default: {
             nops(size_t(op.a[0] % 17));
             // a jump that only has the rel8 form, onto a label that is bound later - possibly in the other section, where
@@ -525,6 +538,14 @@ void execute_decode(const Plan& plan) {
           SIM_CHECK(designated == s.target, "c04:wrong-target", "a64 %s at offset %zu relocated to base %#llx (base %s at assembly time) designates %#llx, requested %#llx", s.kind == 3 ? "b" : s.kind == 4 ? "bl" : s.kind == 5 ? "adr" : "adrp", s.start,
                     (unsigned long long)base, known ? "known" : "unknown", (unsigned long long)designated, (unsigned long long)s.target);
           sim::count("c04.probe.decode_a64_branch");
+        }
+        else if (s.kind == 8) {
+          // x86-32 [rip + disp]: the 4-byte address field sits in front of the trailing immediate
+          size_t imm_size = size_t(s.target >> 48) & 0xff; int64_t disp = int64_t(int16_t(s.target & 0xffff));
+          uint32_t field; memcpy(&field, img.data() + sec_off + s.end - imm_size - 4, 4);
+          uint32_t want = uint32_t(base + sec_off + s.end + uint64_t(disp));
+          SIM_CHECK(field == want, "c04:wrong-target", "x86-32 [rip%+lld] operand of the instruction at offset %zu..%zu (%zu immediate bytes behind the address) relocated to base %#llx designates %#x, expected %#x", (long long)disp, s.start, s.end, imm_size,
+                    (unsigned long long)base, field, want);
         }
         else if (s.kind == 7) {
           // rel8 jump: the byte behind the opcode, relative to the end of the instruction
